@@ -168,7 +168,7 @@ func vC15Component(rc *runCtx) {
 		maxSize = 12
 	}
 	files, dirs := vGenTree(rc, src, n, maxSize)
-	shrink := tp.Pick("mutate", 6, 2, 1) // 1 = shrink a file between scan and read, 2 = extend
+	shrink := tp.Pick("mutate", 6, 2, 1, 2) // 1 = shrink a file between scan and read, 2 = extend, 3 = shrink it while it is being read
 	rc.res.Scenario["entries"] = files + dirs
 	rc.res.Scenario["mutate"] = shrink
 	rc.res.ClassKey = fmt.Sprintf("comp small=%v n%d mut%d", small, n, shrink)
@@ -207,6 +207,8 @@ func vC15Component(rc *runCtx) {
 			if shrink == 1 {
 				os.Truncate(victim.AbsPath, int64(tp.Draw("newlen", int(victim.Size))))
 				rc.fault("source-shrunk")
+			} else if shrink == 3 {
+				// done inside the read loop below
 			} else {
 				f, _ := os.OpenFile(victim.AbsPath, os.O_APPEND|os.O_WRONLY, 0)
 				f.Write([]byte("grown after the scan"))
@@ -215,6 +217,7 @@ func vC15Component(rc *runCtx) {
 			}
 		}
 	}
+	shrunkMid := false
 	produce := func() ([]byte, error, int64) {
 		rd, err := sender.newArchiveReader(arch[0])
 		if err != nil {
@@ -222,7 +225,30 @@ func vC15Component(rc *runCtx) {
 		}
 		defer rd.Close()
 		var stream []byte
+		// where the victim's entry lies in the stream (headers are fixed by newArchiveReader)
+		vStart, vEnd := -1, -1
+		if victim != nil && shrink == 3 {
+			off := 0
+			for _, f := range arch[0].SubFiles {
+				l := len(f.Header) + 1
+				if !f.IsDir {
+					l += int(f.Size)
+				}
+				if f == victim {
+					vStart, vEnd = off, off+l
+				}
+				off += l
+			}
+		}
+		shrunk := false
 		for {
+			if vStart >= 0 && !shrunk && len(stream) > vStart && len(stream) < vEnd && tp.Bool("midshrink", 500) {
+				// the entry has been opened (its header has begun) and bytes are still owed
+				os.Truncate(victim.AbsPath, int64(tp.Draw("midnewlen", int(victim.Size))))
+				rc.fault("source-shrunk-while-read")
+				shrunk = true
+				shrunkMid = true
+			}
 			sz := 1 + tp.Draw("rdsize", 40)
 			if tp.Bool("rdbig", 300) {
 				sz = 1 + tp.Draw("rdsize.big", 70000)
@@ -242,7 +268,10 @@ func vC15Component(rc *runCtx) {
 		}
 	}
 	stream, perr, announced := produce()
-	if victim != nil && shrink == 1 {
+	if victim != nil && shrink == 3 && !shrunkMid {
+		shrink, victim = 0, nil // the moment never came: an unchanged tree
+	}
+	if victim != nil && (shrink == 1 || shrink == 3) {
 		if perr == nil {
 			rc.violate("shrink-unreported", "C15:shrink-unreported", "a source file shrank from %d bytes after the scan but the archive reader reported no error (stream %d bytes, announced %d)",
 				victim.Size, len(stream), announced)
